@@ -1,6 +1,8 @@
 package harness
 
 import (
+	"fmt"
+
 	"verifharness/refcodec"
 )
 
@@ -132,6 +134,15 @@ func genC07(t *Tape) *Plan {
 	cfg.MaxQos = []byte{2, 2, 1, 0}[t.Draw("c07.maxqos", 4)]
 	cfg.Auth = "perm"
 	cfg.Deny = []DenyRule{{Topic: "deny/w", Write: true}, {Topic: "deny/r", Write: false}}
+	if t.Draw("c07.collide", 3) == 0 {
+		// the client's packet ids start at 1, like the broker's, and deliveries stay unacknowledged for a while: a
+		// request may carry the identifier of a pending delivery in the other direction (the two spaces are independent)
+		for _, s := range g.slots {
+			s.nextPID = 0
+		}
+		k.ManualAckPct = 70
+		k.SubQosW = [3]int{0, 2, 2}
+	}
 	n := 6 + t.Draw("c07.len", 11)
 	for len(g.plan.Ops) < n {
 		switch t.Draw("c07.special", 8) {
@@ -146,6 +157,9 @@ func genC07(t *Tape) *Plan {
 			slot := t.Draw("op.slot", k.Slots)
 			g.ensureConnected(slot)
 			pid := g.slots[slot].nextPID
+			if pid == 0 {
+				pid = 1 // packet identifier 0 is not a well-formed request
+			}
 			if t.Draw("c07.pubrel.unknown", 2) == 1 {
 				pid += 500
 			}
@@ -207,6 +221,16 @@ func genC23(t *Tape) *Plan {
 	k.ConcPct = 20
 	k.PadMax = 30
 	k.MsgExpiryChoices = []uint32{0, 0, 5}
+	if t.Draw("c23.sessions", 2) == 0 {
+		// persistent sessions holding unacknowledged QoS 1/2 messages, resumed by connections that may speak another
+		// protocol version than the one that created the session: everything resent must fit the new connection
+		k.CleanPct = 15
+		k.ManualAckPct = 60
+		k.ExpiryChoices = []uint32{300}
+		k.SubQosW = [3]int{0, 2, 2}
+		k.QosW = [3]int{1, 3, 3}
+		k.WConnect, k.WDrop = 6, 2
+	}
 	g := NewGen(t, &k, "C23")
 	cfg := &g.plan.Cfg
 	GenSchedConfig(t, cfg)
@@ -285,6 +309,27 @@ func genC32(t *Tape) *Plan {
 	}
 	cfg.HoldPct = []int{0, 10}[t.Draw("c32.hold", 2)]
 	cfg.Listener = []string{"", "tcp"}[t.Draw("c32.listener", 2)]
+	if t.Draw("c32.shape", 4) == 0 {
+		// stuck-writer skeleton: a subscriber stops reading while the broker writes to it, then ends the session
+		// from its side (DISCONNECT, or a protocol error) without closing the socket
+		g.Connect(0)
+		si := g.Subscribe(0)
+		g.plan.Ops[si].Pkt.Filters = []refcodec.Filter{{Filter: "#", Opts: byte(t.Draw("c32.subqos", 2))}}
+		g.Connect(1)
+		g.add(Op{Kind: "stall", Slot: 0})
+		for i, n := 0, 1+t.Draw("c32.burst", 3); i < n; i++ {
+			g.Publish(1)
+		}
+		if t.Draw("c32.endkind", 3) == 0 {
+			g.add(Op{Kind: "packet", Slot: 0, Pkt: &refcodec.Packet{Type: refcodec.CONNECT, ProtoVer: g.slots[0].ver, ClientID: g.slots[0].id, CleanStart: true}, Note: "malformed"})
+		} else {
+			g.add(Op{Kind: "disconnect", Slot: 0, Pkt: &refcodec.Packet{Type: refcodec.DISCONNECT}})
+		}
+		g.slots[0].connected = false
+		for i := range g.plan.Ops {
+			g.plan.Ops[i].Concurrent = false
+		}
+	}
 	n := 8 + t.Draw("c32.len", 11)
 	for len(g.plan.Ops) < n {
 		g.Step()
@@ -303,11 +348,11 @@ func genC32(t *Tape) *Plan {
 
 func checkC32Profile(r *Result) []Violation {
 	var out []Violation
-	if r.Ex.Deadlock != nil || r.Stats.Truncated {
+	if r.Stats.Truncated {
 		return nil
 	}
 	for _, c := range r.Ex.Conns {
-		if r.Plan.Ops[c.ConnectOp].Note != "probe" {
+		if r.Plan.Ops[c.ConnectOp].Note != "probe" || r.Ex.Deadlock != nil {
 			continue
 		}
 		gotAck, gotPong := false, false
@@ -321,6 +366,41 @@ func checkC32Profile(r *Result) []Violation {
 		}
 		if !gotAck || !gotPong {
 			out = append(out, viol("C32", "not-serving", "probe client was not served after the workload (CONNACK/PINGRESP missing)", -1))
+		}
+	}
+	// a connection whose client has sent DISCONNECT is closed by the broker by the next quiescent point, also when
+	// a write to that client is stuck because it has stopped reading: the handler must not wait for a lock that the
+	// stuck writer holds
+	sent := sentPackets(r)
+	for _, c := range r.Ex.Conns {
+		if connack(c) == nil || connack(c).P.ReasonCode != 0 {
+			continue
+		}
+		for _, s := range sent[c.Idx] {
+			if s.P == nil || s.P.Type != refcodec.DISCONNECT {
+				continue
+			}
+			q := firstQuiesceAfter(r.H, s.Seq)
+			if q < 0 {
+				continue
+			}
+			bc, pc := brokerCloseSeq(r.H, c.Idx), peerCloseSeq(r.H, c.Idx)
+			if (bc < 0 || bc > q) && (pc < 0 || pc > q) {
+				stalled := false
+				for _, e := range r.H.Evs {
+					if e.Seq > q {
+						break
+					}
+					if e.Conn == c.Idx && e.Kind == "stall-on" {
+						stalled = true
+					}
+					if e.Conn == c.Idx && e.Kind == "stall-off" {
+						stalled = false
+					}
+				}
+				out = append(out, viol("C32", "handler-stuck-after-disconnect", fmt.Sprintf("conn %d: the client's DISCONNECT was delivered but the broker has not closed the connection by the next quiescent point (seq %d); the handler is blocked", c.Idx, q), q, "writer_stalled", fmt.Sprint(stalled)))
+			}
+			break
 		}
 	}
 	return out
